@@ -51,6 +51,21 @@ def generate(tier, seed):
             dist["random_len_by_20"][b] = dist["random_len_by_20"].get(b, 0) + 1
             cases.append(build_case(sp, ad, pre, ops, dom, views_every=(n <= 10)))
             dist["random"] += 1
+    # two policy types per section (p/p2, g/g2) sharing names across the sibling types
+    sp = multi_spec()
+    al = multi_alphabet()
+    dist["multi_type"] = 0
+    for k in (1, 2):
+        hs = list(itertools.product(al, repeat=k))
+        if k == 2 and tier == "quick":
+            hs = rnd.sample(hs, 600)
+        for h in hs:
+            steps = []
+            for o in h:
+                steps += [o] + multi_observe()
+            steps += ["?gp:p:p2", "?gp:g:g2", "?gf:p:p2:0:ops", "?vl:g:g2:1"]
+            cases.append(case("eng", sp, adapter_M(multi_lines()), "-", steps))
+            dist["multi_type"] += 1
     return {
         "cases": cases,
         "exhaustive": False,
